@@ -30,7 +30,7 @@ from c01_clang import kids, strip, unparse, Unknown, C  # noqa: E402
 
 FILES = ["run.c", "fnc.c", "mod-str.c", "mod-hawk.c", "mod-math.c", "val.c", "rec.c", "misc.c"]
 CONVERTERS = ("hawk_rtx_valtoint", "hawk_rtx_valtonum", "hawk_rtx_valtoflt")
-POLL_CALLS = ("run_statement",)
+POLL_CALLS = ("run_statement", "run_statement_withdc")
 
 
 def callee(n):
